@@ -137,6 +137,25 @@ impl SigningKey {
             return Err(PasetoError::CryptoError);
         }
 
+        // Simulation seam: let the harness supply the ECDSA nonce so that
+        // signatures are a function of the simulator's seed.
+        #[cfg(paseto_verif)]
+        while let Some(k) = paseto_core::verif::ecdsa_k() {
+            let sig = unsafe {
+                aws_lc::ECDSA_sign_with_nonce_and_leak_private_key_for_testing(
+                    digest.as_ptr(),
+                    digest.len(),
+                    *key,
+                    k.as_ptr(),
+                    k.len(),
+                )
+            };
+            // NULL: nonce out of range (or r/s == 0); draw again like ECDSA_sign does.
+            if let Ok(sig) = LcPtr::new(sig) {
+                return Ok(Signature { sig });
+            }
+        }
+
         let mut sig_len = 0;
         let mut sig = [0; 104];
         let res = unsafe {
